@@ -92,12 +92,34 @@ type Case struct {
 	Blocks  []Block  `json:"blocks"`
 }
 
+// Fault: how a life ends through the regular return path of driver.Run (deferred Close) instead of a kill.
+type Fault struct {
+	Kind      string `json:"kind"`      // fail: the first store call / commit callback at or after effect number At reports failure; cancel: context cancelled when At effects are done
+	At        int    `json:"at"`
+	Performed bool   `json:"performed"` // fail: the operation did its work and reported failure nevertheless
+	CloseOK   bool   `json:"close_ok"`  // the flush inside the deferred Close succeeds
+}
+
+func (f *Fault) String() string {
+	b := func(x bool) int {
+		if x {
+			return 1
+		}
+		return 0
+	}
+	if f.Kind == "fail" {
+		return fmt.Sprintf("fail:%d:%d:%d", f.At, b(f.Performed), b(f.CloseOK))
+	}
+	return fmt.Sprintf("cancel:%d:%d", f.At, b(f.CloseOK))
+}
+
 // Life: one run of the validator process.
 type Life struct {
 	H       uint64 `json:"h"`        // height the state machine is created with
 	Base    int    `json:"base"`     // number of Value() calls answered before this process started
 	Ins     []In   `json:"ins"`      // inputs delivered (in order)
 	CrashAt int    `json:"crash_at"` // kill after this many effects; -1 = run to the end
+	Fault   *Fault `json:"fault,omitempty"`
 }
 
 type Scenario struct {
